@@ -590,16 +590,25 @@ func genSpec(r *hx.RNG) *genOut {
 	// contract), else one time in three over a zero slot / to a contract that does not exist
 	ecfg.SysPct, ecfg.SysZeroPct = 22, 30
 	out := &genOut{sp: &Spec{}}
+	// protocol-version crossing: blocks at heights below `cross` carry a version below 0.14.0 (the state commitment of
+	// a state without Sierra classes is the bare contracts root there), so storing / reverting the first 0.14.0 block
+	// crosses the formula change
+	cross, height := 0, 0
 	mk := func(zeroNoopPct int) *sh.BlockSpec {
+		pre := height < cross
+		height++
 		if r.Chance(7) {
 			spec := &sh.BlockSpec{Version: "0.14.0", Salt: uint64(r.Intn(4))}
+			if pre {
+				spec.Version = sh.PreV014Version
+			}
 			out.labels = append(out.labels, "empty-block")
 			g.Push(spec)
 			return spec
 		}
 		spec, _ := g.NextStore(false)
 		out.labels = append(out.labels, g.Cur().Kinds(&spec.Diff)...)
-		ecfg.ZeroNoopPct = zeroNoopPct
+		ecfg.ZeroNoopPct, ecfg.PreV014 = zeroNoopPct, pre
 		out.labels = append(out.labels, sh.AddExtras(r, g, reg, ecfg, spec)...)
 		g.Push(spec)
 		return spec
@@ -612,6 +621,13 @@ func genSpec(r *hx.RNG) *genOut {
 	if r.Chance(10) {
 		nP = 0 // the fork starts at genesis
 	}
+	if r.Chance(30) && nP+nA >= 2 {
+		cross = 1 + r.Intn(nP+nA-1)
+		if r.Chance(50) && nP >= 1 {
+			cross = nP // the first block of both forks is the first 0.14.0 block
+		}
+		out.labels = append(out.labels, "shape:version-crossing")
+	}
 	for i := 0; i < nP; i++ {
 		out.sp.P = append(out.sp.P, mk(6))
 	}
@@ -623,6 +639,7 @@ func genSpec(r *hx.RNG) *genOut {
 		g.Pop()
 	}
 	reg = regP
+	height = nP
 	for i := 0; i < nB; i++ {
 		out.sp.B = append(out.sp.B, mk(6))
 	}
